@@ -337,7 +337,7 @@ _B = "%s, start thread + 1 preemption; this item: max_idle=%d with %d pre-idle w
 # in parallel; inside a cell everything else (schedule, liveness, expiry, abandonment) is symbolic.
 
 
-@cond(q=100, t=600, engine="coop", encoded=ENCODED, stubs=ASSUMPTIONS[:2], bound=_B % ("2 borrowers", 0, 0), replay=_bar_replay(2, 0, 0), signature=_SIG0)
+@cond(q=220, t=600, engine="coop", encoded=ENCODED, stubs=ASSUMPTIONS[:2], bound=_B % ("2 borrowers", 0, 0), replay=_bar_replay(2, 0, 0), signature=_SIG0)
 def pool_bb_m0_i0(ab0: bool, ab1: bool, first: int, p1: int) -> bool:
     """
     pre: 0 <= first <= 1 and 0 <= p1 <= 45
@@ -346,7 +346,7 @@ def pool_bb_m0_i0(ab0: bool, ab1: bool, first: int, p1: int) -> bool:
     return _bar(2, 0, 0, True, True, False, False, ab0, ab1, first, p1, 1 - first)
 
 
-@cond(q=100, t=600, engine="coop", encoded=ENCODED, stubs=ASSUMPTIONS[:2], bound=_B % ("2 borrowers", 1, 0), replay=_bar_replay(2, 1, 0), signature=_SIGN)
+@cond(q=220, t=600, engine="coop", encoded=ENCODED, stubs=ASSUMPTIONS[:2], bound=_B % ("2 borrowers", 1, 0), replay=_bar_replay(2, 1, 0), signature=_SIGN)
 def pool_bb_m1_i0(ab0: bool, ab1: bool, first: int, p1: int) -> bool:
     """
     pre: 0 <= first <= 1 and 0 <= p1 <= 45
@@ -355,7 +355,7 @@ def pool_bb_m1_i0(ab0: bool, ab1: bool, first: int, p1: int) -> bool:
     return _bar(2, 1, 0, True, True, False, False, ab0, ab1, first, p1, 1 - first)
 
 
-@cond(q=280, t=600, engine="coop", encoded=ENCODED, stubs=ASSUMPTIONS[:2], bound=_B % ("2 borrowers", 1, 1), replay=_bar_replay(2, 1, 1), signature=_SIGN)
+@cond(q=450, t=700, engine="coop", encoded=ENCODED, stubs=ASSUMPTIONS[:2], bound=_B % ("2 borrowers", 1, 1), replay=_bar_replay(2, 1, 1), signature=_SIGN)
 def pool_bb_m1_i1(alive0: bool, exp0: bool, ab0: bool, ab1: bool, first: int, p1: int) -> bool:
     """
     pre: 0 <= first <= 1 and 0 <= p1 <= 45
@@ -364,7 +364,7 @@ def pool_bb_m1_i1(alive0: bool, exp0: bool, ab0: bool, ab1: bool, first: int, p1
     return _bar(2, 1, 1, alive0, True, exp0, False, ab0, ab1, first, p1, 1 - first)
 
 
-@cond(q=100, t=600, tiers=("thorough",), engine="coop", encoded=ENCODED, stubs=ASSUMPTIONS[:2], bound=_B % ("2 borrowers", 2, 0), replay=_bar_replay(2, 2, 0), signature=_SIGN)
+@cond(q=220, t=600, tiers=("thorough",), engine="coop", encoded=ENCODED, stubs=ASSUMPTIONS[:2], bound=_B % ("2 borrowers", 2, 0), replay=_bar_replay(2, 2, 0), signature=_SIGN)
 def pool_bb_m2_i0(ab0: bool, ab1: bool, first: int, p1: int) -> bool:
     """
     pre: 0 <= first <= 1 and 0 <= p1 <= 45
@@ -373,7 +373,7 @@ def pool_bb_m2_i0(ab0: bool, ab1: bool, first: int, p1: int) -> bool:
     return _bar(2, 2, 0, True, True, False, False, ab0, ab1, first, p1, 1 - first)
 
 
-@cond(q=280, t=600, engine="coop", encoded=ENCODED, stubs=ASSUMPTIONS[:2], bound=_B % ("2 borrowers", 2, 1), replay=_bar_replay(2, 2, 1), signature=_SIGN)
+@cond(q=450, t=700, engine="coop", encoded=ENCODED, stubs=ASSUMPTIONS[:2], bound=_B % ("2 borrowers", 2, 1), replay=_bar_replay(2, 2, 1), signature=_SIGN)
 def pool_bb_m2_i1(alive0: bool, exp0: bool, ab0: bool, ab1: bool, first: int, p1: int) -> bool:
     """
     pre: 0 <= first <= 1 and 0 <= p1 <= 45
@@ -382,7 +382,7 @@ def pool_bb_m2_i1(alive0: bool, exp0: bool, ab0: bool, ab1: bool, first: int, p1
     return _bar(2, 2, 1, alive0, True, exp0, False, ab0, ab1, first, p1, 1 - first)
 
 
-@cond(q=280, t=600, tiers=("thorough",), engine="coop", encoded=ENCODED, stubs=ASSUMPTIONS[:2], bound=_B % ("2 borrowers", 2, 2), replay=_bar_replay(2, 2, 2), signature=_SIGN)
+@cond(q=450, t=700, tiers=("thorough",), engine="coop", encoded=ENCODED, stubs=ASSUMPTIONS[:2], bound=_B % ("2 borrowers", 2, 2), replay=_bar_replay(2, 2, 2), signature=_SIGN)
 def pool_bb_m2_i2(alive0: bool, exp0: bool, alive1: bool, exp1: bool, ab0: bool, ab1: bool, first: int, p1: int) -> bool:
     """
     pre: (exp0 or not exp1) and 0 <= first <= 1 and 0 <= p1 <= 45
@@ -391,7 +391,7 @@ def pool_bb_m2_i2(alive0: bool, exp0: bool, alive1: bool, exp1: bool, ab0: bool,
     return _bar(2, 2, 2, alive0, alive1, exp0, exp1, ab0, ab1, first, p1, 1 - first)
 
 
-@cond(q=100, t=600, engine="coop", encoded=ENCODED, stubs=ASSUMPTIONS[:2], bound=_B % ("1 borrower + reaper sweep", 0, 0), replay=_bar_replay(3, 0, 0), signature=_SIG0)
+@cond(q=220, t=600, engine="coop", encoded=ENCODED, stubs=ASSUMPTIONS[:2], bound=_B % ("1 borrower + reaper sweep", 0, 0), replay=_bar_replay(3, 0, 0), signature=_SIG0)
 def pool_br_m0_i0(ab0: bool, first: int, p1: int) -> bool:
     """
     pre: 0 <= first <= 1 and 0 <= p1 <= 45
@@ -400,7 +400,7 @@ def pool_br_m0_i0(ab0: bool, first: int, p1: int) -> bool:
     return _bar(3, 0, 0, True, True, False, False, ab0, False, first, p1, 1 - first)
 
 
-@cond(q=100, t=600, tiers=("thorough",), engine="coop", encoded=ENCODED, stubs=ASSUMPTIONS[:2], bound=_B % ("1 borrower + reaper sweep", 1, 0), replay=_bar_replay(3, 1, 0), signature=_SIGN)
+@cond(q=220, t=600, tiers=("thorough",), engine="coop", encoded=ENCODED, stubs=ASSUMPTIONS[:2], bound=_B % ("1 borrower + reaper sweep", 1, 0), replay=_bar_replay(3, 1, 0), signature=_SIGN)
 def pool_br_m1_i0(ab0: bool, first: int, p1: int) -> bool:
     """
     pre: 0 <= first <= 1 and 0 <= p1 <= 45
@@ -409,7 +409,7 @@ def pool_br_m1_i0(ab0: bool, first: int, p1: int) -> bool:
     return _bar(3, 1, 0, True, True, False, False, ab0, False, first, p1, 1 - first)
 
 
-@cond(q=280, t=600, engine="coop", encoded=ENCODED, stubs=ASSUMPTIONS[:2], bound=_B % ("1 borrower + reaper sweep", 1, 1), replay=_bar_replay(3, 1, 1), signature=_SIGN)
+@cond(q=450, t=700, engine="coop", encoded=ENCODED, stubs=ASSUMPTIONS[:2], bound=_B % ("1 borrower + reaper sweep", 1, 1), replay=_bar_replay(3, 1, 1), signature=_SIGN)
 def pool_br_m1_i1(alive0: bool, exp0: bool, ab0: bool, first: int, p1: int) -> bool:
     """
     pre: 0 <= first <= 1 and 0 <= p1 <= 45
@@ -418,7 +418,7 @@ def pool_br_m1_i1(alive0: bool, exp0: bool, ab0: bool, first: int, p1: int) -> b
     return _bar(3, 1, 1, alive0, True, exp0, False, ab0, False, first, p1, 1 - first)
 
 
-@cond(q=100, t=600, tiers=("thorough",), engine="coop", encoded=ENCODED, stubs=ASSUMPTIONS[:2], bound=_B % ("1 borrower + reaper sweep", 2, 0), replay=_bar_replay(3, 2, 0), signature=_SIGN)
+@cond(q=220, t=600, tiers=("thorough",), engine="coop", encoded=ENCODED, stubs=ASSUMPTIONS[:2], bound=_B % ("1 borrower + reaper sweep", 2, 0), replay=_bar_replay(3, 2, 0), signature=_SIGN)
 def pool_br_m2_i0(ab0: bool, first: int, p1: int) -> bool:
     """
     pre: 0 <= first <= 1 and 0 <= p1 <= 45
@@ -427,7 +427,7 @@ def pool_br_m2_i0(ab0: bool, first: int, p1: int) -> bool:
     return _bar(3, 2, 0, True, True, False, False, ab0, False, first, p1, 1 - first)
 
 
-@cond(q=280, t=600, engine="coop", encoded=ENCODED, stubs=ASSUMPTIONS[:2], bound=_B % ("1 borrower + reaper sweep", 2, 1), replay=_bar_replay(3, 2, 1), signature=_SIGN)
+@cond(q=450, t=700, engine="coop", encoded=ENCODED, stubs=ASSUMPTIONS[:2], bound=_B % ("1 borrower + reaper sweep", 2, 1), replay=_bar_replay(3, 2, 1), signature=_SIGN)
 def pool_br_m2_i1(alive0: bool, exp0: bool, ab0: bool, first: int, p1: int) -> bool:
     """
     pre: 0 <= first <= 1 and 0 <= p1 <= 45
@@ -436,7 +436,7 @@ def pool_br_m2_i1(alive0: bool, exp0: bool, ab0: bool, first: int, p1: int) -> b
     return _bar(3, 2, 1, alive0, True, exp0, False, ab0, False, first, p1, 1 - first)
 
 
-@cond(q=280, t=600, tiers=("thorough",), engine="coop", encoded=ENCODED, stubs=ASSUMPTIONS[:2], bound=_B % ("1 borrower + reaper sweep", 2, 2), replay=_bar_replay(3, 2, 2), signature=_SIGN)
+@cond(q=450, t=700, tiers=("thorough",), engine="coop", encoded=ENCODED, stubs=ASSUMPTIONS[:2], bound=_B % ("1 borrower + reaper sweep", 2, 2), replay=_bar_replay(3, 2, 2), signature=_SIGN)
 def pool_br_m2_i2(alive0: bool, exp0: bool, alive1: bool, exp1: bool, ab0: bool, first: int, p1: int) -> bool:
     """
     pre: (exp0 or not exp1) and 0 <= first <= 1 and 0 <= p1 <= 45
